@@ -11,7 +11,9 @@ PROP = {'title': 'bitfield is observationally a set of enumerators',
                'leave the last word partly unused against every operator.',
  'level_note': 'enums with more than 9 enumerators only on the structured family; expression trees exhaustively to depth 2, depth 3 '
                '(thorough) over the distinct storage values of the depth<=2 trees; the storage array is read only to classify the '
-               'signature of an already established violation',
+               'signature of an already established violation (suffix :padding_bits_observable = storage bits at or above the enum size '
+               'are set and ==/hash/is_subset_eq see them, the F14 class); proxy=proxy:not_assigned = x[e] = x[e2] between two '
+               'non-const proxies rebinds the temporary proxy instead of copying the bit',
  'binaries': [{'name': 'C10',
                'sources': ['harness/C10.cpp', 'harness/C10_b.cpp', 'harness/C10_c.cpp', 'harness/C10_d.cpp'],
                'libs': [],
@@ -27,7 +29,8 @@ PROP = {'title': 'bitfield is observationally a set of enumerators',
          'construct/self: non-empty set; not: the last storage word has unused bits; element: more than one enumerator; proxy_copy: '
          'source and target membership differ; binary_ops: A and B intersect and differ (|,&,^ give three different non-empty sets); '
          'relations: equal sets in different representations, or one a proper subset of the other; expr: the top operator yields a set '
-         'different from its operands. Cases are distinct argument tuples / expression texts',
+         'different from its operands. Cases are distinct argument tuples / expression texts (each expr3 shard additionally announces '
+         'one bookkeeping case for the unchecked recomputation of its operands)',
  'assumptions': ['enumerators are exactly 0..fcppt_maximum (fcppt.enum requirement); values outside are a precondition violation and not used',
                  'object(no_init), object(array_type) and the mutable array() accessor expose raw storage and are outside the set abstraction',
                  'depth-3 expression trees are enumerated modulo identical operand storage (operators are pure functions of their operands)',
